@@ -258,7 +258,10 @@ func oneSet(run *ev.Run, gen string, sp setSpec, report bool) (failure string, d
 	manFile := filepath.Join(manDir, sp.name+".json")
 	_ = os.WriteFile(manFile, man, 0o644)
 	detail = map[string]any{"generation": gen, "set": sp.name, "class": sp.class, "types": len(schema.Types), "resources": len(schema.Resources)}
-	outs := []string{filepath.Join(workDir, rel), filepath.Join(workDir, "c12-det", gen, sp.name+"-b"), filepath.Join(workDir, "c12-det", gen, sp.name+"-c")}
+	outs := []string{filepath.Join(workDir, rel)}
+	for _, suffix := range []string{"-b", "-c", "-d", "-e", "-f"} {
+		outs = append(outs, filepath.Join(workDir, "c12-det", gen, sp.name+suffix))
+	}
 	var results []genResult
 	for i, o := range outs {
 		r := runGenerator(gen, o, pkgRoot, manFile, i)
@@ -303,8 +306,9 @@ func oneSet(run *ev.Run, gen string, sp setSpec, report bool) (failure string, d
 		}
 	}
 	run.Count(gen+".files_generated", len(results[0].tree))
-	_ = os.RemoveAll(outs[1])
-	_ = os.RemoveAll(outs[2])
+	for _, o := range outs[1:] {
+		_ = os.RemoveAll(o)
+	}
 	ok, out := goBuild("./" + rel + "/...")
 	run.Count(gen+".sets_compiled", 1)
 	if !ok {
@@ -328,7 +332,7 @@ func keepManifest(sp setSpec, gen string, man []byte) string {
 
 func main() {
 	run := ev.Start("C12")
-	run.Rule("case = (generation, schema set): kitchen sink, PRNG 'hard' sets (cyclic namespace references, equal simple names in several namespaces, recursion, complex keys, random resources), one probe per type constructor (31) in every position (18), identifier probes (legal schema names awkward in Go, observed only unless they are plain lower/upper-case words); per case three fresh generator processes (GOMAXPROCS 1/16/3, different working directory and TZ) must exit 0 and write byte-identical trees, and `go build` of the generated packages must succeed; the checked-in bindings (v2/restlidata/generated, v2/restlidata/PagingContext, root restlidata/*.gr.go) are regenerated in a scratch copy and must be byte-identical (or equal as comment-free syntax trees). distinct = distinct (generation, set class) that held")
+	run.Rule("case = (generation, schema set): kitchen sink, PRNG 'hard' sets (cyclic namespace references, equal simple names in several namespaces, recursion, complex keys, random resources), one probe per type constructor (31) in every position (18), identifier probes (legal schema names awkward in Go, observed only unless they are plain lower/upper-case words); per case six fresh generator processes (GOMAXPROCS 1/16/3, different working directory and TZ) must exit 0 and write byte-identical trees, and `go build` of the generated packages must succeed; the checked-in bindings (v2/restlidata/generated, v2/restlidata/PagingContext, root restlidata/*.gr.go) are regenerated in a scratch copy and must be byte-identical (or equal as comment-free syntax trees). distinct = distinct (generation, set class) that held")
 	run.Assume("custom typerefs are not in the schema grammar (they need hand-written Go next to the generated code)", "a failing probe that puts one constructor in all positions is re-run position by position to attribute the failure")
 	gen2Bin, gen1Bin, repo, workDir = os.Getenv("VERIF_GEN_BIN"), os.Getenv("VERIF_GEN1_BIN"), os.Getenv("VERIF_REPO"), ""
 	workDir, _ = os.Getwd()
@@ -342,14 +346,23 @@ func main() {
 		corpus.AddKitchenResources(s)
 		return s
 	}})
-	for i := 0; i < run.Pick(8, 80); i++ {
+	for i := 0; i < run.Pick(8, 200); i++ {
 		i := i
 		name := fmt.Sprintf("h%d", i)
 		specs = append(specs, setSpec{name, "hard", func(root string) *corpus.Schema {
 			return corpus.Hard(rand.New(rand.NewSource(run.Seed*7919+int64(i))), name, root, 14)
 		}})
 	}
-	for i := 0; i < run.Pick(6, 40); i++ {
+	// sentinels: hard sets drawn from fixed generator seeds (not VERIF_SEED) that are known to need the cycle remediation
+	// in an order-sensitive way (two overlapping cycles; a package-level cycle through unrelated types)
+	for _, k := range []int64{7919 + 2, 7919 + 9, 7919 + 4, 7919*2 + 0, 7919 + 42} {
+		k := k
+		name := fmt.Sprintf("s%d", k)
+		specs = append(specs, setSpec{name, "hard", func(root string) *corpus.Schema {
+			return corpus.Hard(rand.New(rand.NewSource(k)), name, root, 14)
+		}})
+	}
+	for i := 0; i < run.Pick(6, 80); i++ {
 		i := i
 		name := fmt.Sprintf("q%d", i)
 		specs = append(specs, setSpec{name, "random", func(root string) *corpus.Schema {
@@ -401,7 +414,7 @@ func main() {
 					smu.Lock()
 					if samples < 8 && detail != nil && (samples%2 == 0) == (j.gen == "v2") {
 						samples++
-						detail["outcome"] = "3 generator processes exit 0, identical trees, go build ok"
+						detail["outcome"] = "6 generator processes exit 0, identical trees, go build ok"
 						run.Sample(detail)
 					}
 					smu.Unlock()
